@@ -18,7 +18,7 @@ def alphabet(rng):
 
 class Check(PropertyCheck):
     pid = "C04"
-    gen_files = ["GenAsh"]
+    gen_files = ["GenAsh", "GenAshRxFn"]
     model_imports = ["gen.GenAsh", "model.AshCodec", "model.AshRx"]
     run_expr = "run_c04_case"
     case_type = "(N * list (list N * list N))"
